@@ -21,7 +21,9 @@ EXTRA = {"C01-m1": ["C06"], "C01-m2": ["C02"], "C02-m1": ["C07"], "C02-m2": ["C0
          "C11-m8": ["C02", "C04"], "C12-m8": ["C11"], "C13-m7": ["C14"], "C14-m8": ["C13"], "C15-m8": ["C16"], "C17-m7": ["C07"],
          "C18-m8": ["C04"],
          "C01-m9": ["C06"], "C01-m10": ["C02", "C09"], "C02-m10": ["C09"], "C03-m9": ["C02", "C10"], "C03-m10": ["C14"], "C04-m9": ["C02"],
-         "C04-m10": ["C18"], "C06-m9": ["C01"], "C06-m10": ["C18", "C02"]}
+         "C04-m10": ["C18"], "C06-m9": ["C01"], "C06-m10": ["C18", "C02"],
+         "C08-m10": ["C02"], "C09-m9": ["C02"], "C10-m10": ["C09", "C12"], "C11-m9": ["C12"], "C12-m9": ["C09"], "C13-m9": ["C14", "C03"], "C14-m9": ["C13", "C03"],
+         "C15-m10": ["C13"], "C16-m9": ["C13"], "C17-m9": ["C05"], "C18-m9": ["C02"], "C18-m10": ["C04"], "C03-m10": ["C14", "C13"], "C07-m10": ["C17"]}
 
 
 def main():
